@@ -1,11 +1,14 @@
 /-
   C20 — model of `prompt_toolkit.patch_stdout.StdoutProxy` together with the hand-off
-  into the application's event loop (`run_in_terminal` / `in_terminal`).
+  into the application's event loop (`run_in_terminal` / `in_terminal`) and the start / shutdown
+  of `Application.run_async` as far as the hand-off depends on it.
 
   The model is a transition system.  One `Op` = one atomic step of one thread, at the
   granularity of the synchronisation points of the real code:
 
     writer threads   `write t d`  = `StdoutProxy.write(d)`   (whole body under `self._lock`)
+                     `writeBad t` = `StdoutProxy.write(x)` with `x` not a `str` (bytes, None, int ...):
+                                    `"\n" in data` raises `TypeError` before anything is touched
                      `flush t`    = `StdoutProxy.flush()`    (whole body under `self._lock`)
                      `close`      = the `_flush_queue.put(_Done())` of `StdoutProxy.close()`
     flush thread     `fl`         = the next section of `_write_thread`:
@@ -14,16 +17,35 @@
                                       ready  : `self._write_and_flush(app_loop, text)`
                                       relook : the `_get_app_loop()` inside the `except RuntimeError`
     event loop       `run`        = the oldest callback accepted by `call_soon_threadsafe` runs:
-                                    `run_in_terminal(write_and_flush)`; with a running application
-                                    that is `erase; write; redraw` (`in_terminal`), else a plain write
-                     `start` / `stop`       = `Application.run_async` begins (first render) / ends
-                                              (render in done state, `_is_running = False`, app removed
-                                              from the `AppSession`)
-                     `newLoop` / `closeLoop` = a fresh event loop is created / the loop is closed
-                                              (callbacks that were accepted but did not run are dropped)
-                     `inval`      = `Application.invalidate()` + the redraw it schedules
+                                    `run_in_terminal(write_and_flush)` creates a task
+                                    (`return ensure_future(run())`); nothing is written yet
+                     `task`       = the first step of the oldest task made by `run_in_terminal` (a task's first
+                                    step is a loop callback of its own: between `run` and `task` the loop may
+                                    run whatever else it has accepted, e.g. the wake-up of `run_async`):
+                                    `async with in_terminal(): func()` — with `app._is_running` that is
+                                    `erase; write; redraw`, else a plain write
+                     `start`      = `Application.run_async` begins: `_is_running = True`, `AppSession.app` and
+                                    `app.loop` set, first render
                      `exit`       = `Application.exit()` sets the future's result (`is_done`), `run_async` has
                                     not resumed yet: "exit requested" phase, ended by `stop`
+                     `stop`       = `run_async` wakes up from `await f` (after `exit`, or exit and wake-up in
+                                    one go): render in done state, `_is_running = False`; then
+                                    `cancel_and_wait_for_background_tasks()` cancels every task in
+                                    `Application._background_tasks` and `run_async` suspends until they are done:
+                                    the "winding down" phase, in which `AppSession.app` and `app.loop` are
+                                    still set (`_get_app_loop()` still returns the loop, `in_terminal` sees
+                                    `not app._is_running`)
+                     `finish`     = `run_async` returns: `set_app` / `set_loop` are left (`AppSession.app = None`,
+                                    `app.loop = None`)
+                     `newLoop` / `closeLoop` = a fresh event loop is created / the loop is closed
+                                              (callbacks that were accepted and tasks that were created but did
+                                              not run are dropped)
+                     `inval`      = `Application.invalidate()` + the redraw it schedules
+
+  How `run_in_terminal` makes its task is a switch of the model (`St.regTasks`): `false` is the code
+  (`ensure_future(run())`: only the loop knows the task); `true` is the variant in which a running
+  application registers the task (`app.create_background_task(run())`), used only to show that the
+  shutdown of the application then cancels text that was already handed over.
 
   The chain of `in_terminal` sections (`Application._running_in_terminal_f`) for sections that
   stay open across `await`s is modelled separately in `Ptk.Model.C20Chain`.
@@ -67,9 +89,19 @@ inductive Fl where
   | exited
 deriving Repr, DecidableEq
 
+/-- a task made by `run_in_terminal` whose first step has not run yet -/
+structure Task where
+  /-- the text its `write_and_flush` will write -/
+  txt : Text
+  /-- the task is in `Application._background_tasks` (made by `app.create_background_task`) -/
+  reg : Bool
+deriving Repr, DecidableEq
+
 structure St where
   /-- `StdoutProxy.raw` -/
   raw : Bool := false
+  /-- switch: `run_in_terminal` registers its task with a running application (NOT the code; see above) -/
+  regTasks : Bool := false
   /-- `StdoutProxy._buffer` (list of strings, joined when flushed) -/
   buffer : List Text := []
   /-- `StdoutProxy._flush_queue`, oldest item first -/
@@ -79,15 +111,20 @@ structure St where
   loopGen : Nat := 0
   /-- the newest event loop exists and is not closed -/
   loopOpen : Bool := false
-  /-- an `Application` is running (`AppSession.app` set, `_is_running`, prompt rendered) on loop `loopGen` -/
+  /-- `app._is_running` of the `Application` on loop `loopGen` (prompt rendered) -/
   appOn : Bool := false
   /-- `Application.exit()` has set the result of the application's future (`app.is_done`), but
       `run_async` has not woken up yet: `_is_running` is still True, the prompt is still drawn and the final
       ('done') rendering is pending.  (`appOn ∧ exiting` = the "exit requested" phase.) -/
   exiting : Bool := false
+  /-- `run_async` has drawn the done state and reset `_is_running`, but has not returned yet (it waits for its
+      background tasks): `AppSession.app` is still the application and `app.loop` still the loop -/
+  winding : Bool := false
   /-- texts of the callbacks accepted by `loop.call_soon_threadsafe`, not yet run; oldest first -/
   pending : List Text := []
-  /-- texts of callbacks that a closing loop dropped -/
+  /-- tasks made by `run_in_terminal` that have not had their first step; oldest first -/
+  tasks : List Task := []
+  /-- texts of callbacks / tasks that a closing loop dropped or that the application cancelled -/
   lost : List Text := []
   /-- what the terminal side was asked to do, oldest first -/
   log : List Ev := []
@@ -108,6 +145,12 @@ inductive Op where
   | inval
   /-- `Application.exit()`: the future gets its result; `run_async` resumes later (`stop`) -/
   | exit
+  /-- first step of the oldest task made by `run_in_terminal` -/
+  | task
+  /-- `run_async` returns -/
+  | finish
+  /-- `write(x)` with a non-`str` argument -/
+  | writeBad (t : Nat)
 deriving Repr, DecidableEq
 
 /-- `"".join(parts)` -/
@@ -141,8 +184,8 @@ def drain : List Item → Text × Bool
   | .text t :: q => let (r, d) := drain q; (t ++ r, d)
   | .done :: q => let (r, _) := drain q; (r, true)
 
-/-- `StdoutProxy._get_app_loop()` -/
-def appLoop (s : St) : Option Nat := if s.appOn then some s.loopGen else none
+/-- `StdoutProxy._get_app_loop()`: `app = self.app_session.app; None if app is None else app.loop` -/
+def appLoop (s : St) : Option Nat := if s.appOn || s.winding then some s.loopGen else none
 
 /-- where `_write_thread` continues after `_write_and_flush` returned -/
 def afterEmit (dn : Bool) : Fl := if dn then .exited else .idle
@@ -175,38 +218,58 @@ def flStep (s : St) : St :=
     { s with fl := .ready (if nl = some g then none else nl) txt dn }
   | .exited => s
 
-/-- the oldest accepted callback runs in the loop: `run_in_terminal(write_and_flush)` -/
+/-- the oldest accepted callback runs in the loop: `run_in_terminal(write_and_flush)` makes the task
+    `run()`; with the code as it is (`ensure_future`) the task is known to the loop only -/
 def runStep (s : St) : St :=
   match s.pending with
   | [] => s
-  | t :: ps =>
+  | t :: ps => { s with pending := ps, tasks := s.tasks ++ [{ txt := t, reg := s.regTasks && s.appOn }] }
+
+/-- first step of the oldest task: `async with in_terminal(): return func()` -/
+def taskStep (s : St) : St :=
+  match s.tasks with
+  | [] => s
+  | k :: ts =>
     if s.appOn then
       -- `in_terminal`: erase, body, redraw
-      { s with pending := ps, log := s.log ++ [.erase, .out s.raw t, .draw] }
+      { s with tasks := ts, log := s.log ++ [.erase, .out s.raw k.txt, .draw] }
     else
       -- `app is None or not app._is_running`: plain call
-      { s with pending := ps, log := s.log ++ [.out s.raw t] }
+      { s with tasks := ts, log := s.log ++ [.out s.raw k.txt] }
+
+def taskTexts (ts : List Task) : List Text := ts.map (·.txt)
+
+def isReg (k : Task) : Bool := k.reg
+def notReg (k : Task) : Bool := !k.reg
 
 def step (s : St) : Op → St
   | .write _ d => doWrite s d
+  | .writeBad _ => s
   | .flush _ => doFlush s
   | .close => { s with queue := s.queue ++ [.done] }
   | .fl => flStep s
   | .run => runStep s
+  | .task => taskStep s
   | .start =>
-    if s.loopOpen ∧ ¬ s.appOn then { s with appOn := true, exiting := false, log := s.log ++ [.draw] } else s
+    if s.loopOpen ∧ ¬ s.appOn ∧ ¬ s.winding then
+      { s with appOn := true, exiting := false, log := s.log ++ [.draw] } else s
   | .stop =>
-    -- `run_async` wakes up (after `exit`, or exit and wake-up in one go): final rendering, `_is_running = False`
-    if s.appOn then { s with appOn := false, exiting := false, log := s.log ++ [.doneDraw] } else s
+    -- `run_async` wakes up: final rendering, `_is_running = False`, then
+    -- `cancel_and_wait_for_background_tasks`: the registered tasks that did not start never run their body
+    if s.appOn then
+      { s with appOn := false, exiting := false, winding := true, log := s.log ++ [.doneDraw],
+               tasks := s.tasks.filter notReg, lost := s.lost ++ taskTexts (s.tasks.filter isReg) }
+    else s
+  | .finish => if s.winding then { s with winding := false } else s
   | .exit =>
     -- only the future changes: `in_terminal` tests `app._is_running`, not `app.is_done`, so a section that
-    -- runs in this phase still erases and redraws the prompt (see `runStep`, which looks at `appOn` only)
+    -- runs in this phase still erases and redraws the prompt (see `taskStep`, which looks at `appOn` only)
     if s.appOn then { s with exiting := true } else s
   | .newLoop =>
     if s.loopOpen then s else { s with loopGen := s.loopGen + 1, loopOpen := true }
   | .closeLoop =>
-    if s.loopOpen ∧ ¬ s.appOn then
-      { s with loopOpen := false, lost := s.lost ++ s.pending, pending := [] }
+    if s.loopOpen ∧ ¬ s.appOn ∧ ¬ s.winding then
+      { s with loopOpen := false, lost := s.lost ++ taskTexts s.tasks ++ s.pending, pending := [], tasks := [] }
     else s
   | .inval =>
     -- `_redraw` renders `if self._is_running and not self._running_in_terminal`; the sections of the
@@ -240,21 +303,20 @@ def held : Fl → Text
   | .relook _ t _ => t
   | _ => []
 
-/-- `Vt100_Output.write`: `data.replace("\x1b", "?")` -/
-def sanitize (t : Text) : Text := t.map fun c => if c = '\x1b' then '?' else c
+/-- `Vt100_Output.write`: `data.replace("\x1b", esc)`; the replacement character is regenerated from the
+    code (`Ptk.Gen.C20.escRepl`, today `?`) -/
+def sanitize (esc : Char) (t : Text) : Text := t.map fun c => if c = '\x1b' then esc else c
 
-/-- `Vt100_Output.enable_autowrap` -/
-def autowrapSeq : Text := "\x1b[?7h".toList
-
-/-- what a `Vt100_Output` sends to its file for the `out` events (renderer output left out) -/
-def termText : List Ev → Text
+/-- what a `Vt100_Output` sends to its file for the `out` events (renderer output left out):
+    `enable_autowrap()` (the sequence `aw`, regenerated: `Ptk.Gen.C20.autowrap`), then `write` / `write_raw` -/
+def termText (aw : Text) (esc : Char) : List Ev → Text
   | [] => []
-  | .out raw t :: es => autowrapSeq ++ (if raw then t else sanitize t) ++ termText es
-  | _ :: es => termText es
+  | .out raw t :: es => aw ++ (if raw then t else sanitize esc t) ++ termText aw esc es
+  | _ :: es => termText aw esc es
 
 /-- nothing is in flight any more -/
 def quiescent (s : St) : Bool :=
-  cat s.buffer == [] && qText s.queue == [] && held s.fl == [] && s.pending == []
+  cat s.buffer == [] && qText s.queue == [] && held s.fl == [] && s.pending == [] && s.tasks == []
 
 /-- the flush thread can take a step that changes the state -/
 def flEnabled (s : St) : Bool :=
@@ -264,12 +326,19 @@ def flEnabled (s : St) : Bool :=
   | _ => true
 
 /-- drive the loop and the flush thread until nothing moves (driver macro): the loop first runs
-    what it has accepted, then the flush thread takes its next section -/
+    the tasks it has (they are older than the callbacks), then what it has accepted, then the flush thread
+    takes its next section -/
 def settle : Nat → St → St
   | 0, s => s
   | n + 1, s =>
-    if !s.pending.isEmpty then settle n (runStep s)
+    if !s.tasks.isEmpty then settle n (taskStep s)
+    else if !s.pending.isEmpty then settle n (runStep s)
     else if flEnabled s then settle n (flStep s)
     else s
+
+/-- the loop runs every task that is waiting for its first step (driver macro) -/
+def drainTasks : Nat → St → St
+  | 0, s => s
+  | n + 1, s => if s.tasks.isEmpty then s else drainTasks n (taskStep s)
 
 end Ptk.C20
